@@ -581,6 +581,63 @@ def _markguard_rule(chk, prog):
     chk.floor(rule, 6, n)
 
 
+def _stale_fiberptr(chk, prog):
+    """Inside the fiber implementation itself (frame constructors, push helpers, unmarshalling) code also holds raw
+    pointers into fiber->data.  janet_fiber_setcapacity / janet_fiber_grow reallocate that array, so a pointer computed
+    before such a call is dangling after it; it must be recomputed from fiber->data before its next use."""
+    rule = "C01-FIBERPTR"
+    chk.rule(rule, "a local pointer into fiber->data is not used after a call that can reallocate the fiber's stack without being recomputed")
+    RELOC = ("janet_fiber_setcapacity", "janet_fiber_grow", "janet_fiber_refresh_memory")
+    n = 0
+    for fn in prog.all_funcs():
+        if fn.name == "run_vm":
+            continue      # covered by the handler-wise STALE rule
+        ptrs = set()
+        for x in fn.nodes:
+            tgt = rhs = None
+            if x.k == "vardecl" and x.kids:
+                tgt, rhs = x.name, x.kids[0]
+            elif x.k == "asg" and x.op == "=" and is_ref(x.kids[0]):
+                tgt, rhs = x.kids[0].name, x.kids[1]
+            if tgt and rhs is not None and "*" in ((x.t if x.k == "vardecl" else x.kids[0].t) or "") and \
+                    any(y.k == "mem" and y.field == "data" and y.rec == "JanetFiber" for y in rhs.walk()):
+                ptrs.add(tgt)
+        relocs = [c for c in fn.nodes if c.k == "call" and c.callee in RELOC]
+        if not ptrs or not relocs:
+            continue
+        chk.analysed(fn)
+
+        def transfer(st, x):
+            tgt = rhs = None
+            if x.k == "vardecl" and x.kids:
+                tgt, rhs = x.name, x.kids[0]
+            elif x.k == "asg" and x.op == "=" and is_ref(x.kids[0]):
+                tgt, rhs = x.kids[0].name, x.kids[1]
+            if tgt in ptrs:
+                return st - {tgt}          # (re)computed
+            if x.k == "call" and x.callee in RELOC:
+                return st | frozenset(ptrs)
+            return st
+        IN, OUT = flow.forward(fn, frozenset(), transfer, lambda a, b: a | b)
+        bad = {}
+        for x, st in flow.states_at(fn, IN, transfer):
+            if x.k == "ref" and x.name in st and x.name in ptrs:
+                p_ = x.parent
+                if p_ is not None and ((p_.k == "asg" and p_.op == "=" and p_.kids[0] is x) or p_.k == "vardecl"):
+                    continue
+                bad.setdefault(x.name, x)
+        for v in sorted(ptrs):
+            n += 1
+            chk.instance(rule)
+            if v in bad:
+                chk.violation(rule, fn.tu.name, fn.name, v, bad[v].loc,
+                              "`%s` points into fiber->data and is used at %s after a call that can reallocate the stack (%s) without "
+                              "being recomputed: the access goes to the old, freed block" % (v, bad[v].loc, ", ".join(sorted(set(c.callee for c in relocs)))))
+            else:
+                chk.ok(rule, "%s: `%s` is recomputed before any use that follows a possible reallocation" % (fn.name, v))
+    chk.floor(rule, 2, n)
+
+
 def run(chk):   # noqa
     prog = Program.load("default")
     S = Summaries(prog)
@@ -592,3 +649,4 @@ def run(chk):   # noqa
     _nilfill_rule(chk, prog)
     _drain_rule(chk, prog)
     _markguard_rule(chk, prog)
+    _stale_fiberptr(chk, prog)
